@@ -76,7 +76,7 @@ CHECKS = {
  "C03": dict(
    technique="bounded-exhaustive enumeration of policies over a schema vocabulary (type-directed must-accept set, guard x access x shape grid, all depth-1/2 operator applications over 41 typed atoms, several action scopes); each is validated by the real validator and every accepted one is evaluated by the real evaluator on every conformant (request, store) of a small universe, with a typed-AST walk checking value-in-static-type at every reached sub-expression",
    text="Model checking in the small-scope sense over three nested finite spaces (programs x request environments x conformant stores): soundness is checked by actually evaluating every strictly accepted policy on every environment the library's own validation accepts (error classes, impossible-policy warnings, value inhabits static type at each reached node, strict=>permissive), and non-vacuity by requiring acceptance of a type-directed set of documented guard patterns. This is the level that can see an unsound acceptance (capability leak, optional treated as required, wrong singleton bool type), which per-expression typing tests cannot.",
-   note="Trusted base: schema.rs generators and conformance oracle, refsem evaluator (cross-checked against the real evaluator on every case), val_in_type. Members of proper entity LUBs are not observable via public API (none arise in strict mode). Templates not covered. Quick: ~30k candidate policies x ~4k environments.",
+   note="Trusted base: schema.rs generators and conformance oracle, refsem evaluator (cross-checked against the real evaluator on every case), val_in_type. Members of proper entity LUBs are not observable via public API (none arise in strict mode). Templates are covered through 600 template+link candidates (slots in ==, in, is..in scope positions), without the typed-AST walk. Quick: ~30k candidate policies x ~4k environments.",
    design="§3 C03"),
  "C11": dict(
    category="fault_enumeration",
